@@ -360,3 +360,33 @@ Proof.
   apply andb_true_iff in H. destruct H as [H H3]. apply andb_true_iff in H. destruct H as [H1 H2].
   apply negb_true_iff, Nat.eqb_neq in H1, H2, H3. cbn. auto.
 Qed.
+
+(* ------------------------------------------------------------------ closed meshes: the result encloses a non-negative volume *)
+Lemma tri_has_flip01 t i : tri_has (flip01 t) i = tri_has t i.
+Proof. destruct t as [[a b] c]. unfold flip01, tri_has. destruct (Nat.eqb a i), (Nat.eqb b i), (Nat.eqb c i); reflexivity. Qed.
+Lemma tri_count_flipped : forall ts flags i j, length flags = length ts -> tri_count (flipped ts flags) i j = tri_count ts i j.
+Proof.
+  unfold tri_count. induction ts as [|t ts IH]; intros [|f fl] i j Hl; cbn [length] in Hl; try discriminate; [reflexivity|].
+  unfold flipped. cbn [combine map]. fold (flipped ts fl). rewrite !count_if_cons, (IH fl i j ltac:(lia)).
+  destruct f; rewrite ?tri_has_flip01; reflexivity.
+Qed.
+Lemma is_closed_flipped ts flags : Forall distinct_tri ts -> length flags = length ts -> is_closed (flipped ts flags) = is_closed ts.
+Proof.
+  intros Hd Hl. apply eq_true_iff_eq. rewrite (is_closed_iff _ (flipped_distinct ts flags Hd)), (is_closed_iff ts Hd).
+  split; intros H i j Hij; [rewrite <- (tri_count_flipped ts flags i j Hl)|rewrite (tri_count_flipped ts flags i j Hl)]; apply H; exact Hij.
+Qed.
+
+Open Scope R_scope.
+Theorem orient_closed_volume_nonneg v ts ts' n : Forall distinct_tri ts -> ts <> [] -> manifold ts -> shares_edge ts -> orientable ts ->
+  is_closed ts = true -> orient Rops v ts = Ok (ts', n) -> 0 <= sumK Rops (map (tri_spat Rops v) ts') / 6.
+Proof.
+  intros Hd Hne Hm Hs Ho Hc H.
+  destruct (stage1_oriented ts Hd Hne Hm Hs Ho) as (ts1 & fl & S1 & O1).
+  destruct (stage1_structure ts ts1 fl S1) as (flags & Hl & E1 & _).
+  assert (C1 : is_closed ts1 = true) by (rewrite E1; change (is_closed (flipped ts flags) = true); rewrite is_closed_flipped; assumption).
+  unfold orient in H. rewrite S1 in H. unfold tria_volume in H. rewrite C1, O1 in H. cbn [negb ltb div ofZ zero Rops] in H.
+  destruct (Rltb (sumK Rops (map (tri_spat Rops v) ts1) / 6) 0) eqn:L; inversion H; subst; clear H.
+  - rewrite volume_sum_flip_all. apply Rltb_true in L. lra.
+  - apply Rltb_false in L. lra.
+Qed.
+Close Scope R_scope.
